@@ -38,6 +38,8 @@ def obligations(tier):
            Rp + '_validate_init_settings'], module=H, func='e_settings_enc', timeout=900, shards=8),
         Ob('E.cli', 'E', 'CLI: the password add-key stores (-N file / -n string) is byte for byte the one later commands read (-P file / -p string)', '8 file contents x 3 commands',
            ['replicat.utils.cli:make_main_parser'], module=H, func='e_cli_password', timeout=300),
+        Ob('E.keyfile', 'E', 'init / add-key --shared / add-key writing the key to a path that is absent, empty, shorter or longer junk, or a previous (longer) key file: the file holds exactly the new key and a fresh process unlocks with its bytes',
+           '3 commands x 6 previous states x 3 kdf settings = 54', ['replicat.repository:Repository.init', 'replicat.repository:Repository._add_key'], module=H, func='e_keyfile', timeout=300),
         Ob('E.addkey', 'E', 'chains of 3 add-key calls: each key unlocks with its own password only and works; rejected calls write nothing',
            '2x7x2x7x2x3 = 1176', [Rp + 'add_key', Rp + '_add_key', Rp + 'unlock'], module=H, func='e_addkey', timeout=1200, shards=8),
     ]
